@@ -810,7 +810,7 @@ func c02Open(c *Ctx) {
 	}
 	// open: enumerate ids, load each, insert, fail as a whole
 	var cl0 *ssa.Function
-	for _, s := range txSites(open) {
+	for _, s := range txSitesBody(open) {
 		if s.Closure != nil {
 			cl0 = s.Closure
 		}
